@@ -870,6 +870,37 @@ def _as_int(dom, v):
     raise _Und("not an integer: %r" % (v,))
 
 
+def _is_int_identity_call(c):
+    """the operand x when the call is one of the spellings of "the exact integer x" for an integer x: operator.index(x) (also imported
+    bare), x.__index__(), x.__int__(), numpy.int64(x) / intp / int_ / longlong (64 bits wide: row numbers fit); else None.
+    int(x) / long(x) are handled by the callers themselves."""
+    if not isinstance(c, ast.Call) or c.keywords or any(isinstance(a, ast.Starred) for a in c.args):
+        return None
+    name = call_name(c)
+    recv = dotted_name(c.func.value) if isinstance(c.func, ast.Attribute) else None
+    if len(c.args) == 1:
+        if name == "index" and (isinstance(c.func, ast.Name) or recv in ("operator", "_operator")):
+            return c.args[0]
+        if name in ("int64", "intp", "int_", "longlong") and recv in ("numpy", "np"):
+            return c.args[0]
+    if not c.args and isinstance(c.func, ast.Attribute) and name in ("__index__", "__int__"):
+        return c.func.value
+    return None
+
+
+def _strip_int_wrappers(e):
+    """e without any layer of int(...) / operator.index(...) / ... (see _is_int_identity_call) around it"""
+    while isinstance(e, ast.Call):
+        inner = _is_int_identity_call(e)
+        if inner is None and isinstance(e.func, ast.Name) and e.func.id in ("int", "long") and len(e.args) == 1 and not e.keywords \
+                and not isinstance(e.args[0], ast.Starred):
+            inner = e.args[0]
+        if inner is None:
+            break
+        e = inner
+    return e
+
+
 class _PyCount(object):
     """symbolic evaluation of straight-line / branching integer code of Recfile up to the call of the C++ slice reader"""
 
@@ -1079,6 +1110,10 @@ class _PyCount(object):
             raise _Und("star arguments")
         if name == "read_binary_slice" and recv is not None and recv != "self":
             raise _CountStop([self.safe(a, env) for a in c.args])
+        if _is_int_identity_call(c):
+            # operator.index(x), x.__index__(), x.__int__(), numpy.int64(x) ...: the exact integer x for every integer x (the slice
+            # bounds and the row counts are integers: slice.indices / self.nrows), like int(x)
+            return _as_int(self.dom, self.expr(_is_int_identity_call(c), env))
         if recv is None and name in ("int", "long", "bool", "abs", "len", "range", "divmod", "slice", "max", "min"):
             args = [self.expr(a, env) for a in c.args]
             if name in ("int", "long") and len(args) == 1:
@@ -1726,23 +1761,58 @@ def _r02_1f_structural(chk, F):
     if rb is None:
         chk.ob("R02.1f", "Recfile._read_binary_slice::buffer-sized-by-count", None, F["__getitem__"].where(), "the python slice reader was not found")
         return
+    # the allocation: numpy.zeros / empty, shape and dtype given by position or by keyword, the shape a number or a 1-tuple of it
     zs = [x for x in ast.walk(rb.node) if isinstance(x, ast.Call) and call_name(x) in ("zeros", "empty")]
-    ok = False
+    ok, found = None, "no numpy.zeros / numpy.empty allocation found"
+    verdicts = []
     for z in zs:
+        shp = z.args[0] if z.args else kwarg(z, "shape")
         dt = kwarg(z, "dtype")
-        if z.args and dt is not None and rules.xnorm(dt, rb.node) == "self.dtype":
-            size = rules.expand(z.args[0], rb.node)
-            if isinstance(size, ast.Call) and call_name(size) == "_get_slice_nrows":
-                ok = True
+        if dt is None and len(z.args) > 1 and not isinstance(z.args[1], ast.Starred):
+            dt = z.args[1]
+        if shp is None or any(isinstance(a, ast.Starred) for a in z.args) or any(k.arg is None for k in z.keywords):
+            verdicts.append((None, "`%s` is not recognised" % norm(z)))
+            continue
+        size = rules.expand(shp, rb.node)
+        if isinstance(size, (ast.Tuple, ast.List)) and len(size.elts) == 1 and not isinstance(size.elts[0], ast.Starred):
+            size = _strip_int_wrappers(rules.expand(size.elts[0], rb.node))
+        size = _strip_int_wrappers(size)
+        counted = isinstance(size, ast.Call) and call_name(size) == "_get_slice_nrows"
+        if dt is None:
+            verdicts.append((False, "`%s` has no dtype (float64 rows)" % norm(z)))
+        elif isinstance(rules.expand(dt, rb.node), ast.Constant):
+            verdicts.append((False, "`%s` has the fixed dtype %s" % (norm(z), rules.xnorm(dt, rb.node))))
+        elif rules.xnorm(dt, rb.node) == "self.dtype" and counted:
+            verdicts.append((True, "`%s`" % norm(z)))
+        else:
+            verdicts.append((None, "`%s`: the dtype or the length is not recognised" % norm(z)))
+    if verdicts:
+        # several allocations: the rule is about the one handed to the reader -- decided only when they all say the same
+        vs = {v for v, _ in verdicts}
+        ok = True if vs == {True} else (False if vs == {False} else None)
+        found = "; ".join(t for _, t in verdicts)
     chk.ob("R02.1f", rb.qualname + "::buffer-sized-by-count", ok, rb.where(),
-           "the slice read buffer is zeros(<slice row count>, dtype=self.dtype)")
-    ok = False
+           "the slice read buffer is zeros(<slice row count>, dtype=self.dtype) (found: %s)" % found)
+    ok, found = None, "no call read_binary_slice(buffer, start, stop, step)"
     for x in ast.walk(rb.node):
-        if isinstance(x, ast.Call) and call_name(x) == "read_binary_slice" and len(x.args) == 4:
-            roles = [rules.xnorm(a, rb.node) for a in x.args[1:]]
-            ok = all(r.replace("int(", "").rstrip(")") == "arg." + w for r, w in zip(roles, ("start", "stop", "step")))
+        if isinstance(x, ast.Call) and call_name(x) == "read_binary_slice" and len(x.args) == 4 and not x.keywords \
+                and not any(isinstance(a, ast.Starred) for a in x.args):
+            # int(v), operator.index(v), v.__index__() ... are the same integer v
+            roles = [norm(_strip_int_wrappers(rules.expand(a, rb.node))) for a in x.args[1:]]
+            found = ", ".join(roles)
+            heads = {r.rsplit(".", 1)[0] for r in roles if "." in r}
+            tails = [r.rsplit(".", 1)[-1] for r in roles]
+            if len(heads) == 1 and all("." in r for r in roles) and next(iter(heads)).isidentifier():
+                if tails == ["start", "stop", "step"]:
+                    ok = True
+                elif all(t in ("start", "stop", "step") for t in tails):
+                    ok = False      # components of the slice in the wrong places
+                else:
+                    ok = None
+            else:
+                ok = None
     chk.ob("R02.1f", rb.qualname + "::start-stop-step-roles", ok, rb.where(),
-           "read_binary_slice receives (buffer, start, stop, step) in that order")
+           "read_binary_slice receives (buffer, start, stop, step) in that order (found: %s)" % found)
 
 
 def _check_slice_normaliser(chk, repo, fi):
@@ -1893,9 +1963,39 @@ class _SortedCtx(object):
             self._guards[name] = out
         return self._guards[name]
 
-    def reaches_unguarded(self, d, at, name):
+    def small_edges(self, name):
+        """{(branch id, label)}: branch outcomes under which the sequence called `name` is known to be empty or to have one element"""
+        key = ("small", name)
+        if key not in self._guards:
+            out = set()
+            for b in self.cfg.nodes:
+                if b.kind == "branch" or (b.kind == "loop" and isinstance(b.ast, ast.While)):
+                    for lab in ("T", "F"):
+                        if any(_small_fact(f, name) for f in _guard_facts(self.repo, self.fi, b.ast.test, lab == "T")):
+                            out.add((b.id, lab))
+            self._guards[key] = out
+        return self._guards[key]
+
+    def request_small_at(self, at, src, since=None):
+        """the sequence called `src` has at most one element whenever node `at` is reached: every way from each of its reaching
+        definitions to `at` crosses a test that found it empty or of size one.  With `since` (a node id), `src` must in addition be the
+        same object at `at` as it was at that node (same reaching definitions)."""
+        defs = self.IN.get(at.id, {}).get(src)
+        if not defs:
+            return False
+        if since is not None and self.IN.get(since, {}).get(src) != defs:
+            return False
+        return not any(self.reaches_unguarded(d, at, src, self.small_edges(src)) for d in defs)
+
+    def tables(self):
+        if "tables" not in self.__dict__:
+            self.__dict__["tables"] = _name_tables(self.repo, self.fi.cls or "Recfile")
+        return self.__dict__["tables"]
+
+    def reaches_unguarded(self, d, at, name, guards=None):
         """is there a path from definition node d of `name` to node `at` that neither redefines `name` nor crosses one of its guard edges?"""
-        guards = self.guard_edges(name)
+        if guards is None:
+            guards = self.guard_edges(name)
         g = self.view.g
         seen = set()
         todo = [d]
@@ -2003,16 +2103,24 @@ def _guard_facts(repo, fi, test, truth, depth=0):
     return out
 
 
-def _ascending_fact(f, v):
-    """does canonical fact f say that array v is empty, has a single element, or is strictly ascending (each element greater than
-    its predecessor)?  A strictly ascending one-dimensional array is sorted and free of repeats: numpy.unique returns an equal array."""
+def _small_fact(f, v):
+    """does canonical fact f say that sequence v is empty or has a single element?"""
+    if len(f) > 3:
+        return False            # a fact about the elements, not about the sequence
     if _empty_fact(f, v):
         return True
     op, l, r = f[0], f[1], f[2]
     sizes = (v + ".size", "len(%s)" % v, v + ".shape[0]")
-    if (op == "==" and ((l in sizes and r == "1") or (r in sizes and l == "1"))) or (op == "<" and l in sizes and r == "2") or \
-            (op == "<=" and l in sizes and r == "1"):
+    return (op == "==" and ((l in sizes and r == "1") or (r in sizes and l == "1"))) or (op == "<" and l in sizes and r == "2") or \
+        (op == "<=" and l in sizes and r == "1")
+
+
+def _ascending_fact(f, v):
+    """does canonical fact f say that array v is empty, has a single element, or is strictly ascending (each element greater than
+    its predecessor)?  A strictly ascending one-dimensional array is sorted and free of repeats: numpy.unique returns an equal array."""
+    if _small_fact(f, v):
         return True
+    op, l, r = f[0], f[1], f[2]
     if len(f) < 4:
         return False
     diffs = ("numpy.diff(%s)" % v, "np.diff(%s)" % v, "%s[1:] - %s[:-1]" % (v, v))
@@ -2046,11 +2154,15 @@ def _unique_status(ctx, at, e, depth=0):
             return "yes"
         if nm == "flatnonzero" and len(e.args) == 1 and not e.keywords:
             return "yes"               # positions of the set elements of a mask: ascending, each once
+        if nm in _ALLOCATORS and _alloc_length_at_most_one(e):
+            return "yes"               # an array of at most one element is ascending and free of repeats, whatever is stored in it
         if nm in _PASSTHROUGH:
             inner = e.func.value if isinstance(e.func, ast.Attribute) and not (isinstance(e.func.value, ast.Name) and e.func.value.id in ("numpy", "np")) \
                 else (e.args[0] if e.args else None)
             if inner is None:
                 return "unknown"
+            if nm == "atleast_1d" and len(e.args) == 1 and _scalar_value(ctx, at, inner):
+                return "yes"           # the one-element array of a single number
             return _unique_status(ctx, at, inner, depth + 1)
         src = _dedup_in_order_source(ctx, at, e)
         if src is not None:
@@ -2069,11 +2181,25 @@ def _unique_status(ctx, at, e, depth=0):
             # the distinct values of src in the order of their first occurrence: ascending for every request only if src is
             st = _unique_status(ctx, at, src, depth + 1)
             return st if st in ("yes", "no") else "unknown"
-    if isinstance(e, (ast.List, ast.Tuple, ast.Constant)):
+    if isinstance(e, (ast.List, ast.Tuple)):
+        if any(isinstance(x, ast.Starred) for x in e.elts):
+            return "unknown"
+        if not e.elts:
+            return "yes"               # nothing selected: trivially ascending and distinct
+        if len(e.elts) == 1:
+            # a single number: ascending and distinct whatever it is (a nested sequence is not one number: not decided)
+            return "yes" if _scalar_value(ctx, at, e.elts[0]) else "unknown"
+        vals = [x.value for x in e.elts if isinstance(x, ast.Constant) and isinstance(x.value, int) and not isinstance(x.value, bool)]
+        if len(vals) == len(e.elts):
+            return "yes" if all(a < b for a, b in zip(vals, vals[1:])) else "no"
+        return "no"
+    if isinstance(e, ast.Constant):
         return "no"
     if isinstance(e, (ast.ListComp, ast.GeneratorExp)) and len(e.generators) == 1 and not e.generators[0].ifs and not e.generators[0].is_async \
             and isinstance(e.generators[0].target, ast.Name) and isinstance(e.generators[0].iter, ast.Name) \
             and _is_request(ctx.fi, e.generators[0].iter) and _per_element(e.elt, e.generators[0].target.id):
+        if ctx.request_small_at(at, e.generators[0].iter.id):
+            return "yes"               # ... of a request that a dominating test found empty or of one element
         return "no"                    # one value per element of the request, in the order of the request
     if isinstance(e, ast.Name):
         defs = ctx.IN.get(at.id, {}).get(e.id)
@@ -2091,8 +2217,13 @@ def _unique_status(ctx, at, e, depth=0):
             dn = cfg.node(d)
             a = dn.ast
             if dn.kind == "stmt" and isinstance(a, ast.Assign) and len(a.targets) == 1 and isinstance(a.targets[0], ast.Name):
-                if _is_allocation(a.value) and _filled_in_request_order(ctx, e.id, dn):
-                    res.add("no")      # element i is computed from element i of the request: the order (and the repeats) of the request
+                src = _filled_in_request_order(ctx, e.id, dn) if _is_allocation(a.value) else None
+                if src is None:
+                    src = _request_ordered_value(ctx, a.value)
+                if src:
+                    # element i is computed from element i of the request: the order (and the repeats) of the request -- ascending and
+                    # distinct for every request only where the request is known to have at most one element
+                    res.add("yes" if ctx.request_small_at(at, src, since=d) else "no")
                 else:
                     res.add(_unique_status(ctx, dn, a.value, depth + 1))
             elif dn.kind == "stmt" and isinstance(a, ast.Assign) and len(a.targets) == 1 and isinstance(a.targets[0], (ast.Tuple, ast.List)) \
@@ -2227,16 +2358,21 @@ def _filled_in_request_order(ctx, name, alloc):
             src = n.value if isinstance(n, ast.Attribute) and n.attr == "size" else \
                 (n.args[0] if isinstance(n, ast.Call) and norm(n.func) == "len" and len(n.args) == 1 else None)
             if src is not None and isinstance(src, ast.Name) and request(src):
+                sources.append(src.id)
                 return target.id, "%s[%s]" % (src.id, target.id)
         elif isinstance(it, ast.Call) and norm(it.func) == "enumerate" and len(it.args) == 1 and not it.keywords and isinstance(target, ast.Tuple) \
                 and len(target.elts) == 2 and isinstance(it.args[0], ast.Name) and request(it.args[0]):
+            sources.append(it.args[0].id)
             return norm(target.elts[0]), norm(target.elts[1])
         elif isinstance(target, ast.Name) and isinstance(it, ast.Name) and request(it):
+            sources.append(it.id)
             return None, target.id
         return None, None
 
     fills = []        # the statements that store into the container
     loops = 0
+    sources = []      # the name the request goes by in the loop that fills the container
+    filled_from = None
     for x in walk_no_nested(fn):
         if isinstance(x, ast.For) and not x.orelse and not any(isinstance(y, (ast.Break, ast.Continue, ast.Return, ast.If, ast.Try, ast.While, ast.For))
                                                             for b in x.body for y in ast.walk(b)):
@@ -2247,13 +2383,15 @@ def _filled_in_request_order(ctx, name, alloc):
                 if isinstance(b, ast.Assign) and len(b.targets) == 1 and isinstance(b.targets[0], ast.Subscript) and norm(b.targets[0].value) == name:
                     if idx is not None and norm(b.targets[0].slice) == idx and per_element(b.value, elem):
                         fills.append(b)
+                        filled_from = sources[-1]
                         loops += 1
                 if isinstance(b, ast.Expr) and isinstance(b.value, ast.Call) and isinstance(b.value.func, ast.Attribute) and b.value.func.attr == "append" \
                         and norm(b.value.func.value) == name and len(b.value.args) == 1 and per_element(b.value.args[0], elem):
                     fills.append(b.value)
+                    filled_from = sources[-1]
                     loops += 1
     if loops != 1:
-        return False
+        return None
     # nothing else changes the container
     ok_nodes = {id(f) for f in fills}
     for x in walk_no_nested(fn):
@@ -2269,17 +2407,71 @@ def _filled_in_request_order(ctx, name, alloc):
                             continue
                         if id(x) in ok_nodes:
                             continue
-                        return False
+                        return None
         if isinstance(x, ast.Call) and id(x) not in ok_nodes:
             uses = [a for a in list(x.args) + [k.value for k in x.keywords] if isinstance(a, ast.Name) and a.id == name]
             recv = isinstance(x.func, ast.Attribute) and isinstance(x.func.value, ast.Name) and x.func.value.id == name
             if kwarg(x, "out") is not None and norm(kwarg(x, "out")) == name:
-                return False
+                return None
             if recv and (x.func.attr not in _PURE_USES or x.func.attr in ("sort", "append")):
-                return False           # name.sort() sorts in place; any unknown method may change it
+                return None            # name.sort() sorts in place; any unknown method may change it
             if uses and call_name(x) not in _PURE_USES:
-                return False
-    return True
+                return None
+    return filled_from
+
+
+def _request_ordered_value(ctx, v):
+    """v is a list / array built by one comprehension over the caller's request, one value per element, in the order of the request
+    (possibly through order-keeping conversions): the name the request goes by, else None"""
+    for _ in range(4):
+        if isinstance(v, ast.Call) and call_name(v) in _PASSTHROUGH + ("list", "tuple", "fromiter") and not isinstance(v, ast.Starred):
+            nx_ = v.func.value if isinstance(v.func, ast.Attribute) and not (isinstance(v.func.value, ast.Name) and v.func.value.id in ("numpy", "np")) \
+                else (v.args[0] if v.args else None)
+            if nx_ is None:
+                return None
+            v = nx_
+    if isinstance(v, (ast.ListComp, ast.GeneratorExp)) and len(v.generators) == 1 and not v.generators[0].ifs and not v.generators[0].is_async \
+            and isinstance(v.generators[0].target, ast.Name) and isinstance(v.generators[0].iter, ast.Name) \
+            and _is_request(ctx.fi, v.generators[0].iter) and _per_element(v.elt, v.generators[0].target.id):
+        return v.generators[0].iter.id
+    return None
+
+
+def _alloc_length_at_most_one(v):
+    """numpy.zeros(1, ...) / empty((1,)) / full(0, x) ...: a fresh one-dimensional array of constant length 0 or 1"""
+    if not (isinstance(v, ast.Call) and call_name(v) in ("zeros", "empty", "ones", "full") and isinstance(v.func, ast.Attribute)
+            and isinstance(v.func.value, ast.Name) and v.func.value.id in ("numpy", "np")):
+        return False
+    shp = v.args[0] if v.args else kwarg(v, "shape")
+    if isinstance(shp, (ast.Tuple, ast.List)) and len(shp.elts) == 1:
+        shp = shp.elts[0]
+    return isinstance(shp, ast.Constant) and isinstance(shp.value, int) and not isinstance(shp.value, bool) and shp.value in (0, 1)
+
+
+def _scalar_value(ctx, at, e, depth=0):
+    """the expression is one number (not a sequence): an integer constant, int(...) / operator.index(...) of anything (they raise for
+    what is not one number), the column number of one name -- self.get_colnum(name), <name table>[name] --, the size of something"""
+    e = _follow_single(ctx, at, e)
+    if isinstance(e, ast.Constant):
+        return isinstance(e.value, int) and not isinstance(e.value, bool)
+    if _strip_int_wrappers(e) is not e:
+        return True
+    if isinstance(e, ast.Call) and call_name(e) == "len" and isinstance(e.func, ast.Name) and len(e.args) == 1:
+        return True
+    if isinstance(e, ast.Attribute) and e.attr in ("size", "nrows", "ndim"):
+        return True
+    if isinstance(e, ast.Call) and len(e.args) == 1 and not e.keywords and not isinstance(e.args[0], ast.Starred):
+        callee = _self_callee(ctx.repo, e, ctx.fi.cls or "Recfile")
+        if callee is not None and callee.name == "get_colnum":
+            return True
+        if callee is not None and len(callee.params) == 2 and depth < 2:
+            rets = [x for x in walk_no_nested(callee.node) if isinstance(x, ast.Return)]
+            if rets and all(r.value is not None and _is_name_lookup(ctx.repo, callee, rules.expand(r.value, callee.node), callee.params[1], ctx.tables())
+                            for r in rets) and not rules.falls_off_end(cfg_of(callee)):
+                return True
+    if isinstance(e, ast.Subscript) and isinstance(e.ctx, ast.Load) and rules.xnorm(e.value, ctx.fi.node) in ctx.tables():
+        return True
+    return False
 
 
 def _is_mask_positions(e):
@@ -4335,6 +4527,152 @@ def _r02_7i_structural(fn, key):
     return len(freads) == 2 and all(cfront.render(cfront.call_args(c)[1]) == "mRowSize" for c in freads)
 
 
+class _ArmUnsup(Exception):
+    pass
+
+
+def _arm_lower(n, env):
+    """integer term of a C expression over the values the variables have now (env: name -> term; a name not in env is its own
+    symbol): + - * of variables, members and literals; a[i] and v[i] as the function `[]`(a, i)"""
+    import sympy as sp
+    n = cfront.strip(n)
+    k = n.get("kind")
+    inner = [c for c in (n.get("inner", []) or []) if isinstance(c, dict) and c.get("kind")]
+    if k == "IntegerLiteral":
+        return sp.Integer(int(n["value"]))
+    if k == "DeclRefExpr":
+        nm = n.get("referencedDecl", {}).get("name")
+        if nm is None:
+            raise _ArmUnsup("reference without a name")
+        return env.get(nm, sp.Symbol(nm, integer=True))
+    if k == "MemberExpr" and inner and cfront.strip(inner[0]).get("kind") == "CXXThisExpr":
+        return env.get(n["name"], sp.Symbol(n["name"], integer=True))
+    if k == "ArraySubscriptExpr" and len(inner) == 2:
+        return sp.Function("[]")(_arm_lower(inner[0], env), _arm_lower(inner[1], env))
+    if k == "CXXOperatorCallExpr" and cfront.callee_name(n) == "operator[]" and len(inner) == 3:
+        return sp.Function("[]")(_arm_lower(inner[1], env), _arm_lower(inner[2], env))
+    if k == "CXXMemberCallExpr" and cfront.callee_name(n) == "at" and len(inner) == 2:
+        base = cfront.strip(inner[0])
+        if base.get("kind") == "MemberExpr" and base.get("inner"):
+            return sp.Function("[]")(_arm_lower(base["inner"][0], env), _arm_lower(inner[1], env))
+    if k == "UnaryOperator" and n.get("opcode") in ("-", "+") and inner:
+        v = _arm_lower(inner[0], env)
+        return -v if n["opcode"] == "-" else v
+    if k == "BinaryOperator" and n.get("opcode") in ("+", "-", "*") and len(inner) == 2:
+        a, b = _arm_lower(inner[0], env), _arm_lower(inner[1], env)
+        return sp.expand({"+": a + b, "-": a - b, "*": a * b}[n["opcode"]])
+    raise _ArmUnsup("expression `%s`" % cfront.render(n))
+
+
+_SEEK_FWD = ("fseek", "fseeko", "myfseeko", "fseeko64", "_fseeki64")
+
+
+def _arm_run(arm):
+    """symbolic execution of a straight-line block: (final env, [(callee, [argument terms at the time of the call])]).
+    Accepted: declarations with initialiser, = += -= ++ -- on plain variables, call statements, and `if (<call> ...) throw`."""
+    import sympy as sp
+    env, calls = {}, []
+    stmts = arm.get("inner", []) or [] if arm.get("kind") == "CompoundStmt" else [arm]
+
+    def var(x):
+        x = cfront.strip(x)
+        if x.get("kind") == "DeclRefExpr" and x.get("referencedDecl", {}).get("name"):
+            return x["referencedDecl"]["name"]
+        raise _ArmUnsup("assignment to `%s`" % cfront.render(x))
+
+    def note_calls(x):
+        for c in [y for y in cfront.walk(x) if y.get("kind") in ("CallExpr", "CXXMemberCallExpr")]:
+            args = []
+            for a in cfront.call_args(c):
+                try:
+                    args.append(_arm_lower(a, env))
+                except _ArmUnsup:
+                    args.append(None)
+            calls.append((cfront.callee_name(c), args, [cfront.render(a) for a in cfront.call_args(c)]))
+
+    for st in stmts:
+        if not isinstance(st, dict) or not st.get("kind"):
+            continue
+        k = st.get("kind")
+        inner = [c for c in (st.get("inner", []) or []) if isinstance(c, dict) and c.get("kind")]
+        if k == "NullStmt":
+            continue
+        if k == "DeclStmt":
+            for d in inner:
+                ini = [y for y in d.get("inner", []) if isinstance(y, dict) and y.get("kind")]
+                if d.get("kind") != "VarDecl" or not d.get("name"):
+                    raise _ArmUnsup("declaration")
+                if ini and "init" in d:
+                    env[d["name"]] = _arm_lower(ini[-1], env)
+                else:
+                    env[d["name"]] = sp.Symbol("uninitialised " + d["name"], integer=True)
+        elif k == "BinaryOperator" and st.get("opcode") == "=":
+            env[var(inner[0])] = _arm_lower(inner[1], env)
+        elif k == "CompoundAssignOperator" and st.get("opcode") in ("+=", "-="):
+            nm = var(inner[0])
+            cur = env.get(nm, sp.Symbol(nm, integer=True))
+            v = _arm_lower(inner[1], env)
+            env[nm] = sp.expand(cur + v if st["opcode"] == "+=" else cur - v)
+        elif k == "UnaryOperator" and st.get("opcode") in ("++", "--"):
+            nm = var(inner[0])
+            cur = env.get(nm, sp.Symbol(nm, integer=True))
+            env[nm] = cur + (1 if st["opcode"] == "++" else -1)
+        elif k in ("CallExpr", "CXXMemberCallExpr"):
+            note_calls(st)
+        elif k == "IfStmt" and len(inner) == 2 and any(y.get("kind") == "CXXThrowExpr" for y in cfront.walk(inner[1])) \
+                and not any(y.get("kind") in ("BinaryOperator", "CompoundAssignOperator", "UnaryOperator") and y.get("opcode") in
+                            ("=", "+=", "-=", "*=", "/=", "++", "--") for y in cfront.walk(inner[0])):
+            note_calls(inner[0])        # if (seek(...) != 0) throw ...: the call is made, the failure arm leaves the function
+        else:
+            raise _ArmUnsup("statement %s" % k)
+    return env, calls
+
+
+def _col_skip_arm(arm, colskip, wanted, cursor):
+    """(ok, text) for the arm executed when the wanted column is ahead of the column cursor.
+    text reader: the columns [cursor, wanted) are skipped (one skip_ascii_col_range(cursor, wanted)) and the cursor ends at wanted.
+    binary reader: the stream is moved forward by <offset of the wanted column> - <byte cursor> (do_seek or a SEEK_CUR seek, the byte
+    cursor being a local variable), the column cursor ends at wanted and the byte cursor at the offset of the wanted column."""
+    import sympy as sp
+    try:
+        env, calls = _arm_run(arm)
+    except _ArmUnsup as e:
+        return False, "the arm is not straight-line integer code: %s" % e
+    W_, C_ = sp.Symbol(wanted, integer=True), sp.Symbol(cursor, integer=True)
+    if env.get(wanted, W_) != W_:
+        return False, "the wanted column is changed"
+    if sp.expand(env.get(cursor, C_) - W_) != 0:
+        return False, "the column cursor ends at %s, not at the wanted column" % env.get(cursor, C_)
+    if colskip == "skip_ascii_col_range":
+        sk = [(a, t) for nm, a, t in calls if nm == "skip_ascii_col_range"]
+        if len(sk) != 1 or len(sk[0][0]) != 2 or None in sk[0][0]:
+            return False, "%d recognised column-range skips" % len(sk)
+        a, b = sk[0][0]
+        ok = sp.expand(a - C_) == 0 and sp.expand(b - W_) == 0
+        return ok, "skips the columns [%s, %s), cursor ends at the wanted column" % (a, b)
+    moved = []
+    for nm, a, t in calls:
+        if nm == "do_seek" and len(a) == 1:
+            moved.append(a[0])
+        elif nm in _SEEK_FWD and len(a) == 3:
+            if t[2] not in ("SEEK_CUR", "1"):
+                return False, "a seek that is not relative to the current position"
+            moved.append(a[1])
+        elif nm in ("do_seek",) + _SEEK_FWD:
+            return False, "a seek with unexpected arguments"
+    if not moved or None in moved:
+        return False, "no recognised forward seek"
+    dist = sp.expand(sum(moved))
+    target = sp.Function("[]")(sp.Symbol("mOffsets", integer=True), W_)
+    rest = sp.expand(target - dist)         # must be the byte cursor: one local variable, as it was on entry to the arm
+    if not (rest.is_Symbol and rest not in (W_, C_) and not str(rest).startswith("m")):
+        return False, "the stream is moved by %s, which is not <offset of the wanted column> - <byte cursor>" % dist
+    end = env.get(str(rest), rest)
+    if sp.expand(end - target) != 0:
+        return False, "the byte cursor `%s` ends at %s, not at the offset of the wanted column" % (rest, end)
+    return True, "moves the stream by %s; column cursor ends at the wanted column, byte cursor `%s` at its offset" % (dist, rest)
+
+
 def _r02_7_columns_structural(chk, fname, fn, kind):
     colskip = "skip_ascii_col_range" if kind == "text" else "do_seek"
     W = _cwhere(fn)
@@ -4378,20 +4716,24 @@ def _r02_7_columns_structural(chk, fname, fn, kind):
            "current_col is reset per row and advanced once per column read")
     # column skip pairing
     ok_colskip = False
+    found_colskip = "no `if (wanted column > column cursor)` at the top of the column loop"
+    # the wanted column is what the per-column reader is called with
+    wanted_names = {cfront.render(cfront.strip(cfront.call_args(c)[0])) for c in cfront.calls_in(cbody)
+                    if cfront.callee_name(c) in ("read_from_text_column", "read_from_binary_column") and cfront.call_args(c)} or {"col2read"}
     for st in ctop:
-        if st.get("kind") == "IfStmt" and cfront.render(st["inner"][0]) == "(col2read > current_col)":
-            then = st["inner"][1]
-            calls = [cfront.callee_name(c) for c in cfront.calls_in(then)]
-            asg = [cfront.render(x) for x in cfront.walk(then) if x.get("kind") in ("BinaryOperator", "CompoundAssignOperator")
-                   and x.get("opcode") in ("=", "+=")]
-            if colskip == "skip_ascii_col_range":
-                ok_colskip = any(cfront.render(c) == "skip_ascii_col_range(current_col, col2read)" for c in cfront.calls_in(then)) \
-                    and "(current_col = col2read)" in asg
-            else:
-                ok_colskip = "do_seek" in calls and "(current_col = col2read)" in asg and "(current_offset += seek_distance)" in asg \
-                    and "(seek_distance = (mOffsets[col2read] - current_offset))" in asg
+        if st.get("kind") != "IfStmt" or len(st["inner"]) > 2:
+            continue
+        cond = cfront.strip(st["inner"][0])
+        if cond.get("kind") != "BinaryOperator" or cond.get("opcode") not in (">", "<"):
+            continue
+        ahead, cursor = (cfront.render(cfront.strip(x)) for x in (cond["inner"] if cond["opcode"] == ">" else reversed(cond["inner"])))
+        if ahead not in wanted_names or not cursor.isidentifier() or cursor == ahead:
+            continue
+        # the arm is evaluated symbolically (straight-line integer code): what counts is what is skipped and what the cursors hold
+        # at its end, not how the statements are spelled
+        ok_colskip, found_colskip = _col_skip_arm(st["inner"][1], colskip, ahead, cursor)
     chk.ob("R02.7e", fname + "::col-skip-paired", ok_colskip, W,
-           "columns are skipped only when the wanted column is ahead, with the cursor (and byte offset) updated to match")
+           "columns are skipped only when the wanted column is ahead, with the cursor (and byte offset) updated to match (%s)" % found_colskip)
     # the read of the wanted column and pointer advance by that column's size
     reads = [cfront.render(c) for c in cfront.calls_in(cbody) if cfront.callee_name(c) in ("read_from_text_column", "read_from_binary_column")]
     ptr = [cfront.render(x) for x in cfront.walk(cbody) if x.get("kind") == "CompoundAssignOperator" and cfront.render(x["inner"][0]) == "ptr"]
